@@ -29,7 +29,17 @@ pub struct Obs {
     pub stderr_len: usize,
 }
 
+/// A run that exceeds the wall-clock limit is repeated once with a far longer limit: on a busy machine a tool that
+/// answers in 50 ms can be starved for seconds, and only a run that never ends is a hang.
 pub fn run_tool(bin: &str, args: &[String], stdin_text: &str) -> Obs {
+    let o = run_tool_limit(bin, args, stdin_text, 10);
+    if o.code == -2 {
+        return run_tool_limit(bin, args, stdin_text, 180);
+    }
+    o
+}
+
+fn run_tool_limit(bin: &str, args: &[String], stdin_text: &str, limit_s: u64) -> Obs {
     let mut child = match Command::new(bin)
         .args(args)
         .stdin(Stdio::piped())
@@ -63,7 +73,7 @@ pub fn run_tool(bin: &str, args: &[String], stdin_text: &str) -> Obs {
         match child.try_wait() {
             Ok(Some(s)) => break Some(s),
             Ok(None) => {
-                if t0.elapsed() > Duration::from_secs(10) {
+                if t0.elapsed() > Duration::from_secs(limit_s) {
                     let _ = child.kill();
                     let _ = child.wait();
                     break None;
